@@ -8,7 +8,7 @@ mod verif_kani_flows {
     use super::*;
     use std::net::Ipv4Addr;
 
-    const N: usize = 3; // flow length bound
+    const N: usize = 2; // flow length bound
 
     fn any_entry() -> FlowEntry {
         let k: u8 = kani::any();
@@ -53,9 +53,9 @@ mod verif_kani_flows {
         true
     }
 
-    //@harness k_flow_check_contract mode=bounded bound="flows of <= 3 entries over 2 addresses + unknown" timeout=900
+    //@harness k_flow_check_contract mode=bounded bound="flows of <= 2 entries over 2 addresses + unknown" timeout=900
     #[kani::proof]
-    #[kani::unwind(6)]
+    #[kani::unwind(4)]
     fn k_flow_check_contract() {
         let a = any_flow();
         let b = any_flow();
@@ -65,9 +65,9 @@ mod verif_kani_flows {
         if !c { assert!((r == CheckStatus::MatchMerge) == adds(&a, &b)); }
     }
 
-    //@harness k_flow_merge_contract mode=bounded bound="flows of <= 3 entries over 2 addresses + unknown" timeout=900
+    //@harness k_flow_merge_contract mode=bounded bound="flows of <= 2 entries over 2 addresses + unknown" timeout=900
     #[kani::proof]
-    #[kani::unwind(6)]
+    #[kani::unwind(4)]
     fn k_flow_merge_contract() {
         let a = any_flow();
         let b = any_flow();
@@ -80,9 +80,9 @@ mod verif_kani_flows {
         assert!(!conflict(&m, &b));
     }
 
-    //@harness k_flow_from_hops_contract mode=bounded bound="<= 3 hops" timeout=900
+    //@harness k_flow_from_hops_contract mode=bounded bound="<= 2 hops" timeout=900
     #[kani::proof]
-    #[kani::unwind(6)]
+    #[kani::unwind(4)]
     fn k_flow_from_hops_contract() {
         let f = any_flow();
         let hops: Vec<Option<IpAddr>> = f.entries.iter().map(|e| match e { FlowEntry::Known(a) => Some(*a), FlowEntry::Unknown => None }).collect();
@@ -90,13 +90,13 @@ mod verif_kani_flows {
         assert!(g == f);              // position i <-> hops[i], known <-> Some
     }
 
-    //@harness k_registry_register_contract mode=bounded bound="registry of <= 2 flows of <= 3 entries, one further registration" timeout=1800
+    //@harness k_registry_register_contract mode=bounded bound="registry of <= 1 flow of <= 2 entries, one further registration" timeout=1800
     #[kani::proof]
-    #[kani::unwind(6)]
+    #[kani::unwind(4)]
     fn k_registry_register_contract() {
         let mut reg = FlowRegistry::new();
         let n: usize = kani::any();
-        kani::assume(n <= 2);
+        kani::assume(n <= 1);
         let mut i = 0;
         while i < n { let _ = reg.register(any_flow()); i += 1; }
         // ids are issued densely from 1
